@@ -200,13 +200,17 @@ class Repo:
                 return os.path.join(self.dir, t["commands"]["path"])
         return os.path.join(self.dir, target, "monorail", "cmd")
 
-    def install(self, target, command, executable=True, ext="", at=None):
-        """make `command` available for `target` (hard link to mrhelper; a copy when not executable)"""
+    def install(self, target, command, executable=True, ext="", at=None, symlink=False):
+        """make `command` available for `target` (hard link to mrhelper; a copy when not executable;
+        a symbolic link to a shared script when `symlink`)"""
         d = at if at else self.cmd_dir(target)
         os.makedirs(d, exist_ok=True)
         dst = os.path.join(d, command + ext)
         if os.path.lexists(dst):
             os.remove(dst)
+        if symlink and executable:
+            os.symlink(HELPER, dst)
+            return dst
         if executable:
             try:
                 os.link(HELPER, dst)
